@@ -4,17 +4,17 @@ use super::*;
 use crate::verif_spec::fmt;
 use crate::verif_spec::src::Src;
 
-fn check_slice_chunk(data: &[u8]) -> bool {
+pub(crate) fn check_slice_chunk(data: &[u8]) -> bool {
     let got = parse_chunk(data);
     let decoded_ok = got.is_ok();
     let mut want: Option<(usize, u32)> = None;
-    let mut offs = [0usize; 3];
+    let mut offs = [0usize; 16];
     if let Some(h) = fmt::slice_head(data) {
         let mut p = h.keys_at;
         let mut ok = true;
         let mut k = 0usize;
         while k < h.num_keys as usize {
-            if k >= 3 {
+            if k >= 16 {
                 ok = false;
                 break;
             }
